@@ -127,7 +127,7 @@ func (e *Engine) oblige(st *State, kind, label, goal string, tags []string, pos 
 	if !e.wantTags(tags) {
 		return
 	}
-	if e.sweepOnly && !e.inGlobal && kind != "spawn" {
+	if e.sweepOnly && !e.inGlobal && kind != "spawn" && kind != "guard" {
 		return
 	}
 	o := &Oblig{Kind: kind, Func: e.unit, Label: label, Tags: tags, Goal: goal}
